@@ -1,10 +1,12 @@
 #!/bin/sh
-# usage: tools/all_tiers.sh [quick|thorough] [ids...]  - run checks one after the other, one summary line each
+# usage: tools/all_tiers.sh [quick|thorough] [ids...]  - run checks one after the other, one summary line each;
+# full output of every check is kept in ${GXV_TIER_LOGS:-/tmp/gxv-tiers}/<ID>.<tier>.log
 cd "$(dirname "$0")/.." || exit 2
 tier="${1:-quick}"; shift
 ids="$*"; [ -z "$ids" ] && ids="C01 C02 C03 C04 C05 C06 C07 C08 C09 C10 C11 C12 C13 C14 C15 C16 C17 C18 C19 C20"
+logs="${GXV_TIER_LOGS:-/tmp/gxv-tiers}"; mkdir -p "$logs"
 for id in $ids; do
   t0=$(date +%s)
-  out=$(./check "$id" "$tier" 2>&1); rc=$?
-  echo "$id rc=$rc $(( $(date +%s) - t0 ))s $(echo "$out" | grep -v '^KNOWN-FINDING' | tail -1 | cut -c1-220)"
+  ./check "$id" "$tier" > "$logs/$id.$tier.log" 2>&1; rc=$?
+  echo "$id rc=$rc $(( $(date +%s) - t0 ))s $(grep -v '^KNOWN-FINDING' "$logs/$id.$tier.log" | tail -1 | cut -c1-220)"
 done
